@@ -11,7 +11,7 @@ POOL = ["q0", "q1", "q2", "q3", "q4", "q5", "q6", "q7", "p0", "p1", "s", "t", "u
         # names that are input symbols, and names that differ from another name only in case
         "a", "b", "Q0", "S"]
 SYMS = ["a", "b", "0", "1", "c"]
-ODD_SYMS = ["_", "ε", " ", "A"]                  # ordinary input symbols (\w) that other parts of the library write for the empty word
+ODD_SYMS = ["_", "ε", " ", "A", "^", "]", "-", "\\"]      # also characters that are special in regular-expression character classes                  # ordinary input symbols (\w) that other parts of the library write for the empty word
 UNDERSCORE_NAMES = ["s", "t", "u", "v", "s_t", "t_u", "u_v", "s_t_u", "t_u_v", "s_t_u_v"]
 EPS = ["", "ε", "_", "e"]
 EPS_NFA = EPS + ["eps", "lambda", "ea"]      # "any epsilon symbol": also multi-character ones that contain alphabet symbols
